@@ -115,18 +115,19 @@ def cutHash (name : Bytes) (c : UInt16) : UInt64 :=
 
 /-! ### output -/
 
-/-- `reqName` is the presentation name of a request served through the decoded body: an
-alias whose target is spelled exactly like the question is answered SERVFAIL on the spot
-(`additionalAnswer`), `none` for `Store.Get`, which never chases. -/
-def showOutcome (reqName : Option Bytes := none) : Outcome → String
-  | Outcome.hit [e] =>
-    match e.alias, reqName with
-    | some t, some n => if present t == some n then "loop" else s!"hit {e.id}"
-    | _, _ => s!"hit {e.id}"
+def showOutcome : Outcome → String
   | Outcome.hit es => "hit " ++ ",".intercalate (es.map fun e => toString e.id)
   | Outcome.cut c => s!"cut {c.id}"
   | Outcome.fail _ => "fail"
   | Outcome.miss => "miss"
+
+def showReply : MsgReply → String
+  | MsgReply.answer es => "hit " ++ ",".intercalate (es.map fun e => toString e.id)
+  | MsgReply.nx [] c => s!"cut {c.id}"
+  | MsgReply.nx es c => "hit " ++ ",".intercalate (es.map fun e => toString e.id) ++ s!" cut {c.id}"
+  | MsgReply.failed (some _) => "fail"
+  | MsgReply.failed none => "loop"
+  | MsgReply.miss => "miss"
 
 def joinOrDash (l : List String) : String := if l.isEmpty then "-" else ",".intercalate l
 
@@ -204,12 +205,12 @@ def due (s : State) (e : Entry) : Bool :=
 scope, ECS flag; a hit served by the decoded body on an entry that is due claims and
 queues its refresh (`handleCacheHit`). -/
 def runRequest (s : State) (route : String) (i : Ident) (client : Scope) :
-    Option (State × Outcome × Option Bytes × Bytes × Scope × Bool) :=
+    Option (State × MsgReply × Bytes × Scope × Bool) :=
   let (cs, hasECS) := clientScopes s client
   let W := world s
-  let queued := fun (p : Bytes) (o : Outcome) =>
+  let queued := fun (p : Bytes) (o : MsgReply) =>
     match o with
-    | Outcome.hit (e :: _) =>
+    | MsgReply.answer (e :: _) =>
       if due s e then
         { s with claimed := e.id :: s.claimed,
                  queue := s.queue ++ [((CacheKey.mk p i.qtype i.qclass i.cd none).hash H, e,
@@ -220,19 +221,19 @@ def runRequest (s : State) (route : String) (i : Ident) (client : Scope) :
   | "wire", Name.wire wn =>
     match present wn with
     | some p =>
-      let o := if hasECS then serveMsg H W p i.qtype i.qclass i.cd cs hasECS
-               else serveWire H W wn i.qtype i.qclass i.cd (due s)
-      some (queued p o, o, some p, p, cs, hasECS)
+      let o := if hasECS then serveMsgFull H W p i.qtype i.qclass i.cd cs hasECS
+               else serveWireFull H W wn i.qtype i.qclass i.cd (due s)
+      some (queued p o, o, p, cs, hasECS)
     | none => none
   | "msg", n =>
     match n.presentation with
     | some p =>
-      let o := serveMsg H W p i.qtype i.qclass i.cd cs hasECS
-      some (queued p o, o, some p, p, cs, hasECS)
+      let o := serveMsgFull H W p i.qtype i.qclass i.cd cs hasECS
+      some (queued p o, o, p, cs, hasECS)
     | none => none
   | "store", n =>
     match n.presentation with
-    | some p => some (s, storeGet H W p i.qtype i.qclass i.cd hasECS, none, p, cs, hasECS)
+    | some p => some (s, MsgReply.ofOutcome (storeGet H W p i.qtype i.qclass i.cd hasECS), p, cs, hasECS)
     | none => none
   | _, _ => none
 
@@ -296,6 +297,13 @@ def stepVer (w : List String) : String :=
     match parseName a, parseName b with
     | some (Name.wire x), some (Name.wire y) => boolStr (foldWireNamesEqual x y)
     | _, _ => "bad-op"
+  | ["ver", "walk", a] =>
+    match parseName a with
+    | some (Name.pres p) =>
+      let n := canonicalName p
+      let sh := fun (l : List Bytes) => joinOrDash (l.map fun b => if b.isEmpty then "" else bytesHex b)
+      s!"z={sh (failureZones n.length n)} s={sh (cutSuffixes n)}"
+    | _ => "bad-op"
   | ["ver", "norm", sc] =>
     match parseScope sc with
     | some p => fmtScope (normalizeKeyScope p)
@@ -325,23 +333,39 @@ def stepPipe (s : State) (w : List String) : State × String :=
         (s.st, id0, [])
       ({ s with st := st, queue := [], claimed := [] }, if parts.isEmpty then "none" else ";".intercalate parts)
     | none => (s, "bad-op")
-  | ["pipe", "ask", route, ids, cl, idn, sb] =>
+  | "pipe" :: "ask" :: route :: ids :: cl :: idn :: sb :: more =>
     match parseIdent ids, parseScope cl, idn.toNat? with
     | some i, some client, some id =>
-      let sbits : Option (Option Nat) := if sb == "-" then some none else sb.toNat?.map some
-      match runRequest s route i client, sbits with
-      | some (s', o, rn, p, cs, _), some sbits =>
+      let flip := more == ["flipcd"]
+      match runRequest s route i client with
+      | some (s', o, p, cs, _) =>
         match o with
-        | Outcome.miss =>
-          -- the miss reaches the upstream; `WriteMsg` admits its answer
-          let sc := admitScope s.policy cs sbits
-          let key := (CacheKey.mk p i.qtype i.qclass i.cd sc).hash H
-          let st := admitAnswer H s.policy s.st id p i.qtype i.qclass i.cd cs sbits
-          let fs := if (normalizeKeyScope sc).isNone then resetQuestion H s.fs p i.qtype i.qclass i.cd none else s.fs
-          let fs := resetMatching H fs p i.qtype i.qclass i.cd cs
-          ({ s with st := st, fs := fs }, s!"ans {id} key={hex16 key} scope={fmtScope (normalizeKeyScope sc)}")
-        | _ => (s', showOutcome rn o)
-      | _, _ => (s, "bad-op")
+        | MsgReply.miss =>
+          -- the miss reaches the upstream; `WriteMsg` admits its answer.  The ECS option of the
+          -- response: SCOPE `bits`, ADDRESS the forwarded source unless the op names another one
+          let echo : Option (Option Prefix) :=
+            if sb == "-" then some none else
+            match sb.splitOn "@", cs with
+            | [b], some src => b.toNat?.map fun n => some { src with bits := n }
+            | [b, a], some _ =>
+              match b.toNat?, parseScope (a ++ "/0") with
+              | some n, some (some ap) => some (some { ap with bits := n })
+              | _, _ => none
+            | [_], none => some none
+            | [_, _], none => some none
+            | _, _ => none
+          match echo with
+          | none => (s, "bad-op")
+          | some echo =>
+            let respCD := if flip then !i.cd else i.cd
+            let sc := admitScope s.policy cs echo
+            let key := (CacheKey.mk p i.qtype i.qclass respCD sc).hash H
+            let st := admitAnswer H s.policy s.st id p i.qtype i.qclass respCD cs echo
+            let fs := if (normalizeKeyScope sc).isNone then resetQuestion H s.fs p i.qtype i.qclass respCD none else s.fs
+            let fs := resetMatching H fs p i.qtype i.qclass respCD cs
+            ({ s with st := st, fs := fs }, s!"ans {id} key={hex16 key} scope={fmtScope (normalizeKeyScope sc)}")
+        | _ => (s', showReply o)
+      | none => (s, "bad-op")
     | _, _, _ => (s, "bad-op")
   | ["pipe", "set", spec, ids, idn, al] =>
     match parseIdent ids, idn.toNat? with
@@ -409,11 +433,11 @@ def stepPipe (s : State) (w : List String) : State × String :=
           ({ s with cuts := cut :: cuts, byHash := byHash }, "ok wire=t")
       | none => (s, "bad-op")
     | _, _ => (s, "bad-op")
-  | ["pipe", "get", route, ids, cl] =>
+  | "pipe" :: "get" :: route :: ids :: cl :: _flavour =>
     match parseIdent ids, parseScope cl with
     | some i, some client =>
       match runRequest s route i client with
-      | some (s', o, rn, _, _, _) => (s', showOutcome rn o)
+      | some (s', o, _, _, _) => (s', showReply o)
       | none => (s, "bad-op")
     | _, _ => (s, "bad-op")
   | ["pipe", "lbkv", spec, ids] =>
